@@ -20,7 +20,8 @@ func init() {
 		Level: "model_checking",
 		Rule: "bounded-exhaustive: fragment sequences (k<=3 over F, k<=4 over the core), byte strings over B, URL strings (sequences <=3 over the URL alphabet, and <=3 tail fragments after ten well-formed prefixes, placed in a.href / img.src / q.cite; the URL layers include a policy that admits ftp / tel by scheme pattern only) link attribute lists (<=3; <=2 under every combination of the five link options x rel / target admission) and style attributes (<=2 declarations of C10's alphabet under every in-class style rule set and a permissive value pattern), " +
 			"crossed with every policy of the family that is in the property's class (no raw-text element, no comments, no value pattern on rewritten attributes, no rewriter) plus Strict and UGC " +
-			"(UGC only when no del/ins cite survives the first pass). Oracle: Sanitize(Sanitize(x)) == Sanitize(x). non-trivial = first pass changed the input.",
+			"(UGC only when no del/ins cite survives the first pass). Oracle: Sanitize(Sanitize(x)) == Sanitize(x). non-trivial = first pass changed the input." +
+			" Policies with AllowUnsafe that allow neither script nor style are in the class.",
 		Assumptions: []string{"class membership is decided by the harness's spec view of the builder calls, not by inspecting the policy object"},
 		QuickBudget: 50, ThoroughBudget: 800,
 		Run:    runC20,
@@ -377,7 +378,7 @@ func linkAttrAlphabet() []string {
 		` href="/%2Fe.x/&lt;"`, // raw value a local path, normal form re-escaped
 		` href="https:e.x/p"`,  // no slashes after a special scheme: a browser still finds the host e.x
 		` href="ftp:e.x/p"`,
-		` href="https:/e.x/p"`, // one slash: net/url sees a path, a browser the host e.x
+		` href="https:/e.x/p"`,    // one slash: net/url sees a path, a browser the host e.x
 		` href="http://e.x/100%"`, // net/url refuses the escape, a browser follows the link (survives only with RequireParseableURLs(false))
 		` rel=""`, ` rel="nofollow"`, ` rel="noreferrer"`, ` rel="noopener"`, ` rel="NOFOLLOW"`, ` rel="nofollowx"`, ` rel="xnofollow"`,
 		` rel="external nofollow"`, ` rel="a&#9;b"`, ` rel="xnoopener noreferrerx"`, ` rel="nofollow&nbsp;noreferrer&nbsp;noopener"`,
